@@ -372,7 +372,7 @@ func c15Check(c c15Case) *vResult {
 					}
 				}
 			}
-			state.remoteDBQueryTimeout = 2 * time.Second
+			state.remoteDBQueryTimeout = vPrimaryPatience
 			if len(res.Violations) > 0 {
 				return res
 			}
@@ -506,7 +506,7 @@ func c15OutageCheck(c c15OutageCase) *vResult {
 	resp := vServe(handler, req)
 	// let a possibly detached writer finish
 	time.Sleep(30 * time.Millisecond)
-	state.remoteDBQueryTimeout = 2 * time.Second
+	state.remoteDBQueryTimeout = vPrimaryPatience
 	afterP, afterC := c15Dump(state.db, false), c15Dump(state.cacheDB, false)
 	if resp.Panic != "" {
 		res.violate("panic:"+c.Op, "handler panicked during the outage: %s", firstLine(resp.Panic))
